@@ -64,6 +64,9 @@ def check_spans(err, lm, src):
     return None
 
 
+_FILE_ROT = [0]
+
+
 def evaluate(body_src):
     """-> (status, bucket, detail): status ok|rejected|violation|pyerror"""
     from guppylang_internals.error import GuppyComptimeError, GuppyError
@@ -71,8 +74,11 @@ def evaluate(body_src):
     from vlib import runner
 
     src = PRELUDE_EXTRA + body_src
+    # the same few pseudo file names are reused with new contents, as when a user edits a file and
+    # re-runs it in one session: diagnostics must be rendered from the current text
+    _FILE_ROT[0] += 1
     try:
-        lm = runner.load_module(src)
+        lm = runner.load_module(src, name=f"c02mod_{os.getpid()}_{_FILE_ROT[0] % 3}")
     except GuppyError as e:
         return "rejected", "import-time", ""
     except BaseException as e:  # noqa: BLE001
@@ -96,6 +102,18 @@ def evaluate(body_src):
             r = check_spans(e, lm, src)
             if r:
                 return "violation", r[0], r[1] + "\n" + msg[-800:]
+            # the rendered snippet must show the CURRENT text of the spanned line
+            try:
+                from guppylang_internals.span import to_span
+
+                if getattr(e.error, "span", None) is not None:
+                    sp = to_span(e.error.span)
+                    text = src.split("\n")[sp.start.line - 1].strip()
+                    if text and text not in msg:
+                        return "violation", "render.source_line_missing", (
+                            f"line {sp.start.line} of the decorated source is `{text}` but the rendered diagnostic does not show it:\n{msg[-800:]}")
+            except Exception as e3:  # noqa: BLE001
+                return "violation", "render.span_lookup_raises", repr(e3)
             return "rejected", type(e.error).__name__, msg[-300:]
         except GuppyComptimeError as e:
             return "rejected", "GuppyComptimeError", str(e)[:200]
